@@ -21,7 +21,28 @@ import random
 MODEL = 'refcount'
 
 KINDS = {'list': ('list', 'cont'), 'dict': ('dict', 'cont'), 'mem': ('MemoryBlock', 'mem'),
-         'value': ('Value', 'plain'), 'maker': ('Maker', 'plain')}
+         'value': ('Value', 'plain'), 'maker': ('Maker', 'plain'),
+         # a Value / a Namespace that is used to hold proxies: a hosted container like list and dict
+         'cell': ('Value', 'cont'), 'ns': ('Namespace', 'cont')}
+KEYED = ('dict', 'cell', 'ns')
+CONT = ('list', 'dict', 'cell', 'ns')
+KEYS = {'dict': ['a', 'b', 'c'], 'cell': ['v'], 'ns': ['x', 'y']}
+
+
+def cmd_set(kind, hc, key, x):
+    if kind == 'dict':
+        return ['call', hc, '__setitem__', [key, x]]
+    if kind == 'cell':
+        return ['call', hc, 'set', [x]]
+    return ['setattr', hc, key, x]
+
+
+def cmd_take(kind, mode, hc, key, keep):
+    if kind == 'ns':
+        return ['delattr', hc, key] if mode == 'del' else ['getattr', hc, key, keep]
+    if kind == 'cell':
+        return ['call', hc, 'get', [], None, keep]
+    return ['call', hc, {'pop': 'pop', 'del': '__delitem__', 'get': '__getitem__'}[mode], [key], None, keep]
 
 
 class Tracker:
@@ -52,8 +73,8 @@ class Tracker:
         self.alive.add(i)
         if kind == 'list':
             self.content[i] = []
-        elif kind == 'dict':
-            self.content[i] = {}
+        elif kind in KEYED:
+            self.content[i] = {'v': ('v', 5)} if kind == 'cell' else {}
         return i
 
     def new_handle(self):
@@ -110,6 +131,9 @@ class Tracker:
                     want.append(len(self.content[i]))
             elif k == 'mem':
                 plan.append([p, h, '_callmethod', ['_name'], False])
+                want.append('$str')
+            elif k in ('cell', 'ns'):
+                plan.append([p, h, '_callmethod', ['__repr__'], False])
                 want.append('$str')
             elif k == 'value':
                 plan.append([p, h, 'get', [], False])
@@ -183,10 +207,11 @@ def gen_case(rng: random.Random, tier: str, bias: str = ''):
 
     def op_create():
         p = rng.choice(running())
-        kind = rng.choice(['list', 'list', 'dict', 'mem', 'value', 'maker', 'maker'])
+        kind = rng.choice(['list', 'list', 'dict', 'mem', 'value', 'maker', 'maker', 'cell', 'ns'])
         i = T.new_ident(kind)
         h = add_handle(p, i)
-        args = {'list': [[1, 2]], 'dict': [], 'mem': [rng.choice([1, 64, 5000])], 'value': ['i', 5], 'maker': []}[kind]
+        args = {'list': [[1, 2]], 'dict': [], 'mem': [rng.choice([1, 64, 5000])], 'value': ['i', 5], 'maker': [],
+                'cell': ['i', 5], 'ns': []}[kind]
         if kind == 'list':
             T.content[i] = [('v', 1), ('v', 2)]
         if kind == 'maker':
@@ -238,7 +263,7 @@ def gen_case(rng: random.Random, tier: str, bias: str = ''):
         return True
 
     def container_of(p):
-        c = [(pp, h, i) for pp, h, i in T.live_handles() if pp == p and T.kind[i] in ('list', 'dict')
+        c = [(pp, h, i) for pp, h, i in T.live_handles() if pp == p and T.kind[i] in CONT
              and i not in T.inner_of]
         return rng.choice(c) if c else None
 
@@ -255,12 +280,12 @@ def gen_case(rng: random.Random, tier: str, bias: str = ''):
             T.content[c].append(('p', i))
             cmd = ['call', hc, 'append', [{'$h': hx}]]
         else:
-            key = rng.choice(['a', 'b', 'c'])
+            key = rng.choice(KEYS[T.kind[c]])
             old = T.content[c].get(key)
             T.content[c][key] = ('p', i)
             if old and old[0] == 'p':
                 macros.append(f'delitem {p} {c} {old[1]}')
-            cmd = ['call', hc, '__setitem__', [key, {'$h': hx}]]
+            cmd = cmd_set(T.kind[c], hc, key, {'$h': hx})
         emit('store', p, cmd, macros)
         return True
 
@@ -275,20 +300,20 @@ def gen_case(rng: random.Random, tier: str, bias: str = ''):
             T.content[c].append(('v', 9))
             cmd = ['call', hc, 'append', [9]]
         else:
-            key = rng.choice(['a', 'b', 'c'])
+            key = rng.choice(KEYS[T.kind[c]])
             old = T.content[c].get(key)
             T.content[c][key] = ('v', 9)
             if old and old[0] == 'p':
                 macros.append(f'delitem {p} {c} {old[1]}')
-            cmd = ['call', hc, '__setitem__', [key, 9]]
+            cmd = cmd_set(T.kind[c], hc, key, 9)
         emit('storeplain', p, cmd, macros)
         return True
 
     def pick_entry(prefer_proxy=True):
         cands = []
         for p, hc, c in T.live_handles():
-            if T.kind[c] in ('list', 'dict') and c not in T.inner_of and len(T.content[c]) > 0:
-                keys = list(T.content[c]) if T.kind[c] == 'dict' else list(range(len(T.content[c])))
+            if T.kind[c] in CONT and c not in T.inner_of and len(T.content[c]) > 0:
+                keys = list(T.content[c]) if T.kind[c] in KEYED else list(range(len(T.content[c])))
                 for k in keys:
                     e = T.content[c][k]
                     if e[0] == 'p' or not prefer_proxy or rng.random() < 0.15:
@@ -302,20 +327,13 @@ def gen_case(rng: random.Random, tier: str, bias: str = ''):
         p, hc, c, k, e = x
         macros = []
         keep = None
-        if mode == 'pop':
-            if T.kind[c] == 'dict':
+        if T.kind[c] == 'cell' or (T.kind[c] == 'ns' and mode == 'pop'):
+            mode = 'get'            # a Value can only be read or overwritten; a Namespace has no pop
+        if mode in ('pop', 'del'):
+            if T.kind[c] in KEYED:
                 del T.content[c][k]
             else:
                 T.content[c].pop(k)
-            method = 'pop'
-        elif mode == 'del':
-            if T.kind[c] == 'dict':
-                del T.content[c][k]
-            else:
-                T.content[c].pop(k)
-            method = '__delitem__'
-        else:
-            method = '__getitem__'
         if e[0] == 'p':
             i = e[1]
             if mode == 'del':
@@ -328,7 +346,11 @@ def gen_case(rng: random.Random, tier: str, bias: str = ''):
                     macros.append(f'delete {p} {i}')
         else:
             macros.append(f'call {p} {c}')
-        emit(mode, p, ['call', hc, method, [k], None, keep], macros)
+        if T.kind[c] in KEYED:
+            cmd = cmd_take(T.kind[c], mode, hc, k, keep)
+        else:
+            cmd = ['call', hc, {'pop': 'pop', 'del': '__delitem__', 'get': '__getitem__'}[mode], [k], None, keep]
+        emit(mode, p, cmd, macros)
         return True
 
     def op_clear():
